@@ -65,6 +65,25 @@ def self_test() -> list[str]:
                              np.array([LD('0.5'), LD('0.5'), LD('0.5')]), sq, LD(1), LD(1), 1e-9)
     if list(ins[:2]) != [True, False] or list(nr) != [False, False, True]:
         bad.append('point-in-polygon self-test failed')
+    # degenerate pulses: a monochromatic pulse 0..1 ms at 2 angstrom, 10 m; reported segment covers the
+    # emission times 0.2..0.6 ms
+    pm = Pulse(LD(0), LD('1e-3'), LD(2), LD(2))
+    if [pulse_kind(pm), pulse_kind(Pulse(LD(1), LD(1), LD(1), LD(2))), pulse_kind(Pulse(LD(1), LD(1), LD(2), LD(2))),
+            pulse_kind(Pulse(LD(0), LD('1e-4'), LD(1), LD('1.5')))] != ['mono', 'instant', 'point', 'area']:
+        bad.append('pulse_kind self-test failed')
+    sh = LD(10) * alpha() * LD(2)
+    seg = [(np.array([LD('2e-4'), LD('6e-4'), LD('6e-4'), LD('2e-4')]) + sh, np.full(4, LD(2)))]
+    tes = np.array([LD('1e-4'), LD('3e-4'), LD('6e-4'), LD('9e-4')])
+    r = on_segment(tes + sh, np.full(4, LD(2)), seg, pulse_image_ends(pm, 'mono', LD(10)), LD('1e-2'), LD(2), 1e-9)
+    if r is None or list(r[0][[0, 1, 3]]) != [False, True, False] or list(r[1]) != [False, False, True, False]:
+        bad.append('segment membership self-test failed')
+    if on_segment(tes + sh, np.full(4, LD(2)), [(seg[0][0], np.array([LD(2), LD(2), LD('2.1'), LD(2)]))],
+                  pulse_image_ends(pm, 'mono', LD(10)), LD('1e-2'), LD(2), 1e-9) is not None:
+        bad.append('segment membership accepts a polygon off the line')
+    pp = [(np.full(4, LD(1)), np.full(4, LD(2)))]
+    r = at_point(np.array([LD(1), LD('1.1')]), np.array([LD(2), LD(2)]), pp, LD(1), LD(2), 1e-9)
+    if list(r[0]) != [True, False] or list(r[1]) != [False, False]:
+        bad.append('point membership self-test failed')
     return bad
 
 
@@ -142,10 +161,15 @@ def edge_neutrons(pulse: Pulse, ch: ChopperModel, rng, per_edge: int = 6,
                 # wavelengths for which some emission time inside the pulse arrives at t_at
                 lo = max(pulse.l0, (t_at - pulse.t1) / (ch.distance * a)) if ch.distance > 0 else pulse.l0
                 hi = min(pulse.l1, (t_at - pulse.t0) / (ch.distance * a)) if ch.distance > 0 else pulse.l1
-                if not lo < hi:
+                if not lo <= hi:
                     continue
-                w = lo + (hi - lo) * rng.random(per_edge).astype(LD)
+                # lo == hi: a pulse without extent in time or in wavelength (one pre-image)
+                w = lo + (hi - lo) * rng.random(per_edge if lo < hi else 1).astype(LD)
                 e = t_at - ch.distance * a * w
+                # an emission time that misses the pulse only by the rounding of this inversion is snapped
+                # onto it (changes the time at the chopper by ~1e-19 relative; offsets are >= 3e-9)
+                snapped = np.clip(e, pulse.t0, pulse.t1)
+                e = np.where(np.abs(e - snapped) <= 8 * np.finfo(LD).eps * max(abs(t_at), abs(pulse.t1)), snapped, e)
                 ok = (e >= pulse.t0) & (e <= pulse.t1)
                 te.append(e[ok])
                 lam.append(w[ok])
@@ -225,6 +249,82 @@ def in_polygons(pt, pl, polys, tscale, lscale, band: float, chunk_edges: int = 6
         parity = np.add.reduceat(cross.astype(np.int64), starts, axis=1) % 2
         inside |= parity.any(axis=1)
     return inside, mind <= LD(band), mind
+
+
+# ------------------------------------------------- degenerate pulse rectangles ---
+THIN_REL = 1e-13  # an extent of <= ~450 ulp counts as "no extent": generated are 0 and 1..8 ulp
+
+
+def pulse_kind(pulse: Pulse) -> str:
+    """'area' (ordinary rectangle), 'mono' (no extent in wavelength), 'instant' (no extent in
+    time) or 'point' (neither), where "no extent" = zero or a few ulp."""
+    thin_t = (pulse.t1 - pulse.t0) <= LD(THIN_REL) * max(abs(pulse.t0), abs(pulse.t1))
+    thin_l = (pulse.l1 - pulse.l0) <= LD(THIN_REL) * abs(pulse.l1)
+    return 'point' if thin_t and thin_l else 'mono' if thin_l else 'instant' if thin_t else 'area'
+
+
+def pulse_image_ends(pulse: Pulse, kind: str, distance):
+    """End points (t, lambda) of the segment the neutrons of a degenerate pulse occupy at ``distance``
+    (the thin extent is replaced by its middle); for 'point' both ends coincide."""
+    tm = (pulse.t0 + pulse.t1) / 2
+    lm = (pulse.l0 + pulse.l1) / 2
+    if kind == 'mono':
+        ends = [(pulse.t0, lm), (pulse.t1, lm)]
+    elif kind == 'instant':
+        ends = [(tm, pulse.l0), (tm, pulse.l1)]
+    else:
+        ends = [(tm, lm), (tm, lm)]
+    return [(time_at(te, lam, distance), lam) for te, lam in ends]
+
+
+def on_segment(pt, pl, polys, ends, tscale, lscale, band: float):
+    """Membership along a line, for the neutrons of a pulse without extent in one direction.
+
+    All neutrons lie on the segment ``ends`` (normalised plane); a reported polygon that lies on that
+    line (every vertex within ``band`` of it) covers the interval between its extreme vertices.
+    Returns (inside some interval, within ``band`` of an interval end, distance along the line to the
+    nearest interval end), or None if the segment is too short to carry a band or some polygon has a
+    vertex off the line (the caller then uses the plane test)."""
+    (t0, l0), (t1, l1) = ends
+    ox, oy = LD(t0) / LD(tscale), LD(l0) / LD(lscale)
+    dx, dy = LD(t1) / LD(tscale) - ox, LD(l1) / LD(lscale) - oy
+    length = np.sqrt(dx * dx + dy * dy)
+    if not length > 1000 * LD(band):
+        return None
+    ux, uy = dx / length, dy / length
+    px = np.asarray(pt, dtype=LD) / LD(tscale) - ox
+    py = np.asarray(pl, dtype=LD) / LD(lscale) - oy
+    s = px * ux + py * uy
+    if len(s) and np.max(np.abs(py * ux - px * uy)) > LD(band):
+        return None  # (cannot happen for neutrons of this pulse)
+    inside = np.zeros(len(s), dtype=bool)
+    mind = np.full(len(s), LD(np.inf))
+    for t, w in polys:
+        vx = np.asarray(t, dtype=LD) / LD(tscale) - ox
+        vy = np.asarray(w, dtype=LD) / LD(lscale) - oy
+        if np.max(np.abs(vy * ux - vx * uy)) > LD(band):
+            return None
+        sv = vx * ux + vy * uy
+        lo, hi = sv.min(), sv.max()
+        inside |= (s >= lo) & (s <= hi)
+        mind = np.minimum(mind, np.minimum(np.abs(s - lo), np.abs(s - hi)))
+    return inside, mind <= LD(band), mind
+
+
+def at_point(pt, pl, polys, tscale, lscale, band: float):
+    """Membership for the neutrons of a pulse without any extent: a polygon whose vertices are all
+    within ``band`` of the neutron is the neutron's point (inside); otherwise the plane test decides.
+    Returns (inside, undecided, distance)."""
+    inside, near, mind = in_polygons(pt, pl, polys, tscale, lscale, band)
+    px = np.asarray(pt, dtype=LD) / LD(tscale)
+    py = np.asarray(pl, dtype=LD) / LD(lscale)
+    is_point = np.zeros(len(px), dtype=bool)
+    for t, w in polys:
+        vx = np.asarray(t, dtype=LD) / LD(tscale)
+        vy = np.asarray(w, dtype=LD) / LD(lscale)
+        r = np.sqrt((px[:, None] - vx[None, :]) ** 2 + (py[:, None] - vy[None, :]) ** 2).max(axis=1)
+        is_point |= r <= LD(band)
+    return inside | is_point, near & ~is_point, mind
 
 
 def boundary_distance(qt, ql, poly, tscale, lscale):
